@@ -1,7 +1,10 @@
 import Oracle.Proto
-/-! Oracle suites of property C03 (registered in Oracle/Main.lean through `suites`). -/
+import Oracle.ActorSys
+/-! Oracle suites of property C03 (the Layer-2 actor-system model, shared with C04, C05, C06). -/
 namespace Oracle.C03
 
-def suites : List (String × Suite) := []
+def suites : List (String × Suite) := [
+  ("actorsys", Oracle.ActorSys.model)
+]
 
 end Oracle.C03
